@@ -658,7 +658,7 @@ func genDraw(t *rapid.T) DrawCase {
 		var op Op
 		switch {
 		case k <= 13:
-			op = Op{Kind: "set", X: coordX(), Y: coordY(), R: gen.Rune(t, "r", false), Comb: gen.Comb(t, "comb"), Style: gen.Style(t, "st", true, true)}
+			op = Op{Kind: "set", X: coordX(), Y: coordY(), R: gen.Rune(t, "r", false), Comb: gen.Comb(t, "comb"), Style: ulOnly(t, gen.Style(t, "st", true, true))}
 		case k <= 16:
 			if lastSet != nil {
 				// store identical (or nearly identical) content again
@@ -730,7 +730,7 @@ func genDraw(t *rapid.T) DrawCase {
 				op = Op{Kind: "title", S: rapid.StringN(0, 8, 16).Draw(t, "title")}
 			}
 		default:
-			op = Op{Kind: "set", X: inX(), Y: inY(), R: gen.Rune(t, "r", false), Comb: gen.Comb(t, "comb"), Style: gen.Style(t, "st", true, false)}
+			op = Op{Kind: "set", X: inX(), Y: inY(), R: gen.Rune(t, "r", false), Comb: gen.Comb(t, "comb"), Style: ulOnly(t, gen.Style(t, "st", true, false))}
 		}
 		if op.Kind == "set" {
 			o := op
@@ -830,4 +830,18 @@ func drawClasses(c DrawCase) []string {
 		}
 	})
 	return out
+}
+
+// ulOnly turns a third of the underlined styles into styles whose underline style and colour are
+// kept while the underline attribute bit is cleared again (Underline(...) followed by Attributes(...)),
+// half of those with nothing else set: the logical contents still say "underlined".
+func ulOnly(t *rapid.T, s gen.StyleSpec) gen.StyleSpec {
+	if s.Ul != 0 && rapid.IntRange(0, 2).Draw(t, "ulonly") == 0 {
+		s.UlOnly = true
+		if rapid.Bool().Draw(t, "ulbare") {
+			s.Fg, s.Bg = "", ""
+			s.Bold, s.Blink, s.Reverse, s.Dim, s.Italic, s.Strike = false, false, false, false, false, false
+		}
+	}
+	return s
 }
